@@ -81,6 +81,10 @@ def cmd_tests(ids):
             rc, tail = run_tests(root)
             res[m["id"]] = (rc, tail)
             print(f"{m['id']:40s} tests rc={rc} {tail}", flush=True)
+            path = os.path.join(VERIF, "mutants", "tests_status.json")
+            st = json.load(open(path)) if os.path.exists(path) else {}
+            st[m["id"]] = {"pinned_suite_passes": rc == 0, "summary": tail}
+            json.dump(st, open(path, "w"), indent=1, sort_keys=True)
         finally:
             shutil.rmtree(root, ignore_errors=True)
     return res
